@@ -16,6 +16,11 @@ class Undecided(Exception):
     pass
 
 
+class _InlReturn(Exception):
+    def __init__(self, v):
+        self.v = v
+
+
 class _Return(Exception):
     def __init__(self, v):
         self.v = v
@@ -78,6 +83,10 @@ def some(x):
 
 
 NONE = V("Option::None")
+
+
+class HMap(dict):
+    """a HashMap / BTreeMap value (a plain dict is a struct)"""
 
 
 class Opaque:
@@ -299,12 +308,23 @@ class Interp:
                 return Opaque(render(n))
             raise Undecided("field %s of %r" % (n["name"], base))
         if k == "Block":
-            env = dict(env) if False else env
+            if n.get("inl"):
+                # the body of an inlined helper: its `return` (InlRet) leaves this block only
+                try:
+                    for st in n["stmts"]:
+                        self.stmt(st, env)
+                    if "expr" in n:
+                        return self.ev(n["expr"], env)
+                    return ()
+                except _InlReturn as r:
+                    return r.v
             for st in n["stmts"]:
                 self.stmt(st, env)
             if "expr" in n:
                 return self.ev(n["expr"], env)
             return ()
+        if k == "InlRet":
+            raise _InlReturn(self.ev(n["e"], env) if "e" in n else ())
         if k == "If":
             e2 = env
             if self.cond(n["c"], e2):
@@ -420,6 +440,10 @@ class Interp:
             r = self.call({"k": "Call", "callee": f.what, "m": None, "args": [], "f": {"k": "Path", "res": f.what}}, None, list(args), self, {})
             if r is not None:
                 return r[0]
+        if isinstance(f, Opaque) and self.prog is not None and f.what in self.prog.fns:
+            r = self.crate_call({"callee": f.what}, list(args))
+            if r is not None:
+                return r[0]
         if not isinstance(f, Closure):
             raise Undecided("call of a non-closure value %r" % (f,))
         env = f.env
@@ -489,6 +513,29 @@ class Interp:
             if isinstance(a, str):
                 return {"starts_with": recv.startswith, "ends_with": recv.endswith, "contains": lambda x: x in recv,
                         "eq_ignore_ascii_case": lambda x: x.lower() == recv.lower()}[m](a)
+        if isinstance(recv, HMap):
+            argv = [self.ev(a, env) for a in n["args"]]
+            if any(isinstance(a, Opaque) for a in argv):
+                raise Undecided("map key is opaque")
+            if m == "get" and len(argv) == 1:
+                return some(recv[argv[0]]) if argv[0] in recv else NONE
+            if m == "contains_key" and len(argv) == 1:
+                return argv[0] in recv
+            if m == "insert" and len(argv) == 2:
+                old_ = some(recv[argv[0]]) if argv[0] in recv else NONE
+                dict.__setitem__(recv, argv[0], argv[1])
+                return old_
+            if m == "remove" and len(argv) == 1:
+                return some(recv.pop(argv[0])) if argv[0] in recv else NONE
+            if m == "len" and not argv:
+                return len(recv)
+            if m == "is_empty" and not argv:
+                return len(recv) == 0
+            if m in ("keys", "values", "iter") and not argv:
+                return list(recv.keys()) if m == "keys" else (list(recv.values()) if m == "values" else [(k_, v_) for k_, v_ in recv.items()])
+            if m == "clear" and not argv:
+                recv.clear()
+                return ()
         if m in ("is_some", "is_none") and isinstance(recv, V) and not n["args"]:
             return (recv.name == "Option::Some") == (m == "is_some")
         if m in ("is_ok", "is_err") and isinstance(recv, V) and not n["args"]:
@@ -585,10 +632,10 @@ class Interp:
             if m == "is_some_and":
                 return self._bool(r, n)
             return recv if self._bool(r, n) else NONE
-        if isinstance(recv, (list, ListIter)) and len(n["args"]) == 1 and m in ("any", "all", "map", "filter", "for_each", "find", "position", "filter_map", "take_while", "skip_while"):
+        if isinstance(recv, (list, ListIter)) and len(n["args"]) == 1 and m in ("any", "all", "map", "filter", "for_each", "find", "position", "filter_map", "take_while", "skip_while", "map_while", "find_map", "flat_map"):
             items = recv if isinstance(recv, list) else recv.items[recv.pos:]
             f = self.ev(n["args"][0], env)
-            if isinstance(f, Closure):
+            if isinstance(f, Closure) or (isinstance(f, Opaque) and self.prog is not None and f.what in self.prog.fns):
                 if m == "any":
                     for x in items:
                         if self._bool(self.apply(f, [x]), n):
@@ -616,6 +663,48 @@ class Interp:
                     for x in items:
                         self.apply(f, [x])
                     return ()
+                if m == "map_while":
+                    out = []
+                    for x in items:
+                        r = self.apply(f, [x])
+                        if isinstance(r, V) and r.name == "Option::Some":
+                            out.append(r.args[0])
+                        else:
+                            break
+                    return out
+                if m == "take_while":
+                    out = []
+                    for x in items:
+                        if not self._bool(self.apply(f, [x]), n):
+                            break
+                        out.append(x)
+                    return out
+                if m == "skip_while":
+                    out = list(items)
+                    while out and self._bool(self.apply(f, [out[0]]), n):
+                        out.pop(0)
+                    return out
+                if m == "find_map":
+                    for x in items:
+                        r = self.apply(f, [x])
+                        if isinstance(r, V) and r.name == "Option::Some":
+                            return r
+                    return NONE
+                if m == "flat_map":
+                    out = []
+                    for x in items:
+                        r = self.apply(f, [x])
+                        if isinstance(r, V) and r.name == "Option::Some":
+                            out.append(r.args[0])
+                        elif isinstance(r, V) and r.name in ("Option::None", "Result::Err"):
+                            pass
+                        elif isinstance(r, V) and r.name == "Result::Ok":
+                            out.append(r.args[0])
+                        elif isinstance(r, list):
+                            out.extend(r)
+                        else:
+                            raise Undecided("flat_map closure result %r" % (r,))
+                    return out
                 if m == "find":
                     for x in items:
                         if self._bool(self.apply(f, [x]), n):
@@ -644,6 +733,20 @@ class Interp:
                 return [(i, x) for i, x in enumerate(items)]
             if m == "len" or m == "count":
                 return len(items)
+            if m in ("min", "max") and all(isinstance(x, (int, float)) and not isinstance(x, bool) for x in items):
+                return some(min(items) if m == "min" else max(items)) if items else NONE
+            if m == "flatten":
+                out = []
+                for x in items:
+                    if isinstance(x, V) and x.name in ("Option::Some", "Result::Ok"):
+                        out.append(x.args[0])
+                    elif isinstance(x, V) and x.name in ("Option::None", "Result::Err"):
+                        pass
+                    elif isinstance(x, list):
+                        out.extend(x)
+                    else:
+                        raise Undecided("flatten of %r" % (x,))
+                return out
             if m == "is_empty":
                 return len(items) == 0
             if m == "rev":
